@@ -20,7 +20,18 @@ class FnGraph:
         def may_raise(node, kind):
             e = self.ef.node_effects(fi, node)
             return bool(e.raises)
-        self.g = cfgmod.build(fi.node, may_raise)
+        def noreturn(call):
+            try:
+                kind = self.ef.resolve_call(call, fi, self.ef.guard_types(fi))
+            except Exception:
+                return False
+            callee = kind[1] if kind[0] == 'func' else None
+            if callee is None or isinstance(callee, str) or callee.node is fi.node:
+                return False
+            body = [s for s in callee.node.body if not (isinstance(s, ast.Expr) and isinstance(s.value, ast.Constant))]
+            return bool(body) and isinstance(body[-1], ast.Raise) and \
+                not any(isinstance(n, (ast.Return, ast.Yield, ast.YieldFrom)) for n in ast.walk(callee.node))
+        self.g = cfgmod.build(fi.node, may_raise, noreturn)
         for n in self.g.nodes:
             if n.ast is not None and n.kind in ("stmt", "test", "iter", "with"):
                 if isinstance(n.ast, (ast.FunctionDef, ast.ClassDef)):
